@@ -337,12 +337,24 @@ def h_replace_blocks(eng):
     eng.prove("replace.removed_symbols_substituted_in_metadata", z3.BoolVal(covered(meta_log)))
 
 
+def _reduce_affine_contract(eng):
+    from .C14 import h_reduce_affine
+    return h_reduce_affine(eng)
+
+
+def _make_alias_contract(eng):
+    from .C14 import h_make_alias
+    return h_make_alias(eng)
+
+
 HARNESSES = [("Model._simplify_once#eliminate_constant_assignments/counting", h_constant_counting),
              ("Model._simplify_once#eliminable_variable_expression/counting", h_eliminable_counting),
              ("Model._simplify_once#eliminable_variable_expression/counting with the real extract_assignment", h_eliminable_counting_real),
              ("Model._simplify_once#detect_aliases/counting", h_alias_counting),
-             ("Model._simplify_once#replace_* blocks", h_replace_blocks)]
-EXPECTED_COVER = {"count.const", "count.eliminable", "count.eliminable_real", "count.alias"} | {"replace." + o for o in REPLACE_OPTIONS}
+             ("Model._simplify_once#replace_* blocks", h_replace_blocks),
+             ("Model._simplify_once._make_alias (only algebraic unknowns are eliminated)", _make_alias_contract),
+             ("Model._simplify_once#reduce_affine_expression (one set of state vectors)", _reduce_affine_contract)]
+EXPECTED_COVER = {"count.const", "count.eliminable", "count.eliminable_real", "count.alias"} | {"replace." + o for o in REPLACE_OPTIONS} | {"make.done", "affine.done"}
 BOUNDED = True
 LEVEL = "proof"
 TRUSTED = ["pyvc VC generator", "z3 5.1.0", "MX node algebra of contracts/mx_algebra.py", "ca.substitute(exprs, vars, values) removes the substituted symbols from exprs",
